@@ -1,7 +1,7 @@
-(* C19 - Implicitization and Bernstein-basis root finding (partial: implicit function of degree 1-2, interpolation,
+(* C19 - Implicitization and Bernstein-basis root finding (partial: implicit function of degree 1-3, interpolation,
    basis change; the eigenvalue / root-finding back ends (LAPACK, polyroots) are not modelled). Statements only. *)
 From Coq Require Import List ZArith QArith Bool String.
-From BZ Require Import Base.PyVal Gen.PyFnAlgebraic Theory.Algebraic.
+From BZ Require Import Base.PyVal Gen.PyFnAlgebraic Theory.Algebraic Model.Algebraic Theory.Algebraic3.
 Import ListNotations.
 Open Scope Q_scope.
 
@@ -21,6 +21,13 @@ Proof. exact implicit_vanishes_degree2. Qed.
 Print Assumptions C19_implicit_function_vanishes_on_the_quadratic.
 
 (* the intersection polynomial returned in the power basis is a constant multiple (1 or 3) of the sampled function *)
+(* degree 3: evaluate() = the regenerated dispatch applied to the hand model of _evaluate3 (6x6 Sylvester determinant,
+   corresponded exactly); it vanishes at every point of the cubic, for all control points and every parameter *)
+Theorem C19_implicit_function_vanishes_on_the_cubic : forall x0 x1 x2 x3 y0 y1 y2 y3 s,
+  exists e, evaluate_model (N2x4 x0 x1 x2 x3 y0 y1 y2 y3) (VQ (cubic x0 x1 x2 x3 s)) (VQ (cubic y0 y1 y2 y3 s)) = VQ e /\ e == 0.
+Proof. exact implicit_vanishes_degree3. Qed.
+Print Assumptions C19_implicit_function_vanishes_on_the_cubic.
+
 Theorem C19_interpolation_degree1 : forall f n1 n2 c0 c1, samples [c0; c1] f ->
   exists a0 a1, py__to_power_basis11 f n1 n2 = VTup [VQ a0; VQ a1] /\ a0 == c0 /\ a1 == c1.
 Proof. exact interpolation_11. Qed.
